@@ -122,8 +122,10 @@ class StrDomain:
     """finite set of string values plus a fresh 'other' value for a scheme-like variable"""
     OTHER = '<other>'
 
-    def __init__(self, values):
-        self.values = list(values) + [self.OTHER]
+    def __init__(self, values, probes=()):
+        # probes: additional near-miss strings that are NOT legal values (expected to be refused like OTHER)
+        self.values = list(values) + list(probes) + [self.OTHER]
+        self.legal = list(values)
 
     def const(self, e):
         if isinstance(e, ast.Constant) and isinstance(e.value, str):
@@ -149,7 +151,11 @@ class StrDomain:
                     return 'unknown'
                 return (v in cs) if isinstance(op, ast.In) else (v not in cs)
             return 'unknown'
-        if isinstance(test, ast.Call) and isinstance(test.func, ast.Attribute) and test.func.attr == 'startswith' \
-                and ast.unparse(test.func.value) == vartext and test.args and self.const(test.args[0]) is not None:
-            return v != self.OTHER and v.startswith(self.const(test.args[0]))
+        if isinstance(test, ast.Call) and isinstance(test.func, ast.Attribute) and test.func.attr in ('startswith', 'endswith') \
+                and ast.unparse(test.func.value) == vartext and test.args:
+            a = test.args[0]
+            cs = [self.const(x) for x in a.elts] if isinstance(a, ast.Tuple) else [self.const(a)]
+            if any(c is None for c in cs):
+                return 'unknown'
+            return any(getattr(v, test.func.attr)(c) for c in cs)
         return 'unknown' if mentions(test, vartext) else 'unrelated'
